@@ -4,6 +4,7 @@ import (
 	"bytes"
 	"fmt"
 	"go/ast"
+	"go/constant"
 	"go/token"
 	"go/types"
 	"os"
@@ -683,7 +684,13 @@ func inlineRound(p *Prog, overlay map[string][]byte, round int, shared bool) (ma
 						if id, ok := u.X.(*ast.Ident); ok {
 							tested, kind = id, "false-conj"
 						}
+					} else if id, k := signTest(info, lx); id != nil {
+						tested, kind = id, k+"-conj"
 					}
+					break
+				}
+				if id, k := signTest(info, x); id != nil {
+					tested, kind = id, k
 					break
 				}
 				id, ok1 := x.X.(*ast.Ident)
@@ -1571,6 +1578,16 @@ func buildInline(s *inlineSite, pre string, info *types.Info, pkg *types.Package
 				e = el
 			}
 		}
+		if e != nil {
+			// an integer constant: known to be negative or not (`return 0, -1` under a caller's `next >= 0` test)
+			if tv, ok := info.Types[e]; ok && tv.Value != nil && tv.Value.Kind() == constant.Int {
+				if constant.Sign(tv.Value) < 0 {
+					val = "neg"
+				} else {
+					val = "nonneg"
+				}
+			}
+		}
 		switch x := e.(type) {
 		case *ast.Ident:
 			switch info.Uses[x] {
@@ -1647,6 +1664,14 @@ func buildInline(s *inlineSite, pre string, info *types.Info, pkg *types.Package
 			then = map[string]string{"true": "then", "false": "skip"}[val]
 		case "false":
 			then = map[string]string{"true": "skip", "false": "then"}[val]
+		case "geq0":
+			then = map[string]string{"nonneg": "then", "neg": "skip"}[val]
+		case "lt0":
+			then = map[string]string{"nonneg": "skip", "neg": "then"}[val]
+		case "geq0-conj":
+			then = map[string]string{"neg": "skip"}[val]
+		case "lt0-conj":
+			then = map[string]string{"nonneg": "skip"}[val]
 		case "true-conj":
 			then = map[string]string{"false": "skip"}[val]
 		case "false-conj":
@@ -1975,7 +2000,6 @@ func buildInline(s *inlineSite, pre string, info *types.Info, pkg *types.Package
 	return out, ""
 }
 
-
 var pinnedViewCache = map[*Prog]map[string]bool{}
 
 // pinnedView: the names that count as functions of the pinned tree in program p: the pinned names themselves, and a
@@ -2008,6 +2032,62 @@ func pinnedView(p *Prog) map[string]bool {
 		keys = append(keys, k)
 	}
 	sort.Strings(keys)
+	// more candidates than vacant pinned names for one signature (a rename together with a new helper of the same
+	// signature): the candidate whose body is closest to the vacant function's pinned body (the exported and library
+	// names it calls, which a rename of unexported identifiers leaves alone) takes the name
+	cands := map[string][]string{}
+	for _, k := range keys {
+		if !m[k] {
+			if sg := sigKey(present[k]); missing[sg] > 0 {
+				cands[sg] = append(cands[sg], k)
+			}
+		}
+	}
+	decls := map[string]*ast.FuncDecl{}
+	for _, f := range p.Root.Syntax {
+		for _, d := range f.Decls {
+			if fd, ok := d.(*ast.FuncDecl); ok {
+				if o, ok := p.Root.TypesInfo.Defs[fd.Name].(*types.Func); ok {
+					decls[funcObjKey(o)] = fd
+				}
+			}
+		}
+	}
+	var sgs []string
+	for sg := range cands {
+		sgs = append(sgs, sg)
+	}
+	sort.Strings(sgs)
+	for _, sg := range sgs {
+		cs := cands[sg]
+		if len(cs) <= missing[sg] {
+			continue
+		}
+		var vacant []string
+		for k, s := range pinnedSigs {
+			if _, ok := present[k]; !ok && s == sg {
+				vacant = append(vacant, k)
+			}
+		}
+		sort.Strings(vacant)
+		taken := map[string]bool{}
+		for _, v := range vacant {
+			best, bestScore := "", -1.0
+			for _, k := range cs {
+				if taken[k] {
+					continue
+				}
+				if sc := shapeSimilarity(pinnedShapes[v], bodyShape(decls[k])); sc > bestScore {
+					best, bestScore = k, sc
+				}
+			}
+			if best != "" {
+				taken[best] = true
+				m[best] = true
+				missing[sg]--
+			}
+		}
+	}
 	for _, k := range keys {
 		if m[k] {
 			continue
@@ -2055,7 +2135,6 @@ func pinnedView(p *Prog) map[string]bool {
 	return m
 }
 
-
 var pinnedTypes map[string]bool
 
 // pinnedTypeNames: receiver type names that occur in the pinned tree.
@@ -2071,7 +2150,6 @@ func pinnedTypeNames() map[string]bool {
 	return pinnedTypes
 }
 
-
 // pinnedAllPresent: every function of the pinned tree is still there (under its name, or renamed). Functions that were
 // merged or collapsed away mean the edit did more than cut helpers out of pinned functions; the expanded form is then
 // no basis for additional reports.
@@ -2083,4 +2161,104 @@ func pinnedAllPresent(p *Prog) bool {
 		n++
 	}
 	return n >= len(pinnedSigs)
+}
+
+// signTest: e is `x >= 0`, `x > -1`, `x != -1` ("geq0": holds when x is not negative, for an x that is -1 or a
+// position) or `x < 0`, `x == -1`, `x <= -1` ("lt0") on a plain name x.
+func signTest(info *types.Info, e ast.Expr) (*ast.Ident, string) {
+	be, ok := e.(*ast.BinaryExpr)
+	if !ok {
+		return nil, ""
+	}
+	id, ok := be.X.(*ast.Ident)
+	if !ok {
+		return nil, ""
+	}
+	tv, ok := info.Types[be.Y]
+	if !ok || tv.Value == nil || tv.Value.Kind() != constant.Int {
+		return nil, ""
+	}
+	n, exact := constant.Int64Val(tv.Value)
+	if !exact {
+		return nil, ""
+	}
+	switch {
+	case be.Op == token.GEQ && n == 0, be.Op == token.GTR && n == -1:
+		return id, "geq0"
+	case be.Op == token.LSS && n == 0, be.Op == token.LEQ && n == -1:
+		return id, "lt0"
+	}
+	return nil, ""
+}
+
+// bodyShape: the names a function body calls through selectors that a rename of unexported identifiers leaves alone
+// (exported and library names), sorted, with multiplicity, and the number of statements.
+func bodyShape(fd *ast.FuncDecl) string {
+	if fd == nil || fd.Body == nil {
+		return ""
+	}
+	var names []string
+	stmts := 0
+	ast.Inspect(fd.Body, func(n ast.Node) bool {
+		switch x := n.(type) {
+		case *ast.CallExpr:
+			switch f := x.Fun.(type) {
+			case *ast.SelectorExpr:
+				if ast.IsExported(f.Sel.Name) {
+					names = append(names, f.Sel.Name)
+				}
+			case *ast.Ident:
+				if ast.IsExported(f.Name) {
+					names = append(names, f.Name)
+				}
+			}
+		case ast.Stmt:
+			if _, ok := x.(*ast.BlockStmt); !ok {
+				stmts++
+			}
+		}
+		return true
+	})
+	sort.Strings(names)
+	return fmt.Sprintf("%d;%s", stmts, strings.Join(names, ","))
+}
+
+// shapeSimilarity: Jaccard similarity of the called-name multisets of two body shapes, with the statement counts as a
+// tie-breaker.
+func shapeSimilarity(a, b string) float64 {
+	split := func(s string) (int, map[string]int, int) {
+		n := 0
+		m := map[string]int{}
+		tot := 0
+		if i := strings.Index(s, ";"); i >= 0 {
+			fmt.Sscanf(s[:i], "%d", &n)
+			for _, w := range strings.Split(s[i+1:], ",") {
+				if w != "" {
+					m[w]++
+					tot++
+				}
+			}
+		}
+		return n, m, tot
+	}
+	na, ma, ta := split(a)
+	nb, mb, tb := split(b)
+	inter := 0
+	for w, c := range ma {
+		if d := mb[w]; d < c {
+			inter += d
+		} else {
+			inter += c
+		}
+	}
+	union := ta + tb - inter
+	sc := 1.0
+	if union > 0 {
+		sc = float64(inter) / float64(union)
+	}
+	d := na - nb
+	if d < 0 {
+		d = -d
+	}
+	return sc - float64(d)/float64(1000*(na+nb+1))
 }
